@@ -133,14 +133,13 @@ structure NodeOk (n : Node) : Prop where
   contig : Contig n.off n.ents
   offc : n.off ≤ n.hs.commit
   appc : n.applied ≤ n.hs.commit
-  appl : n.applied ≤ n.last
   ws : n.walState = {} ∨ (n.walState.term = n.hs.term ∧ n.walState.vote = n.hs.vote)
 
 /-- what is known about the Ready in progress once `wal.Save` has written it (the part of `ReadyOk` still needed) -/
 structure Post (c : Cfg) (s : State) : Prop where
   snapc : s.rd.snap.isEmpty = false → s.rd.snap.index ≤ s.node.hs.commit ∧ s.rd.ents = [] ∧ s.rd.committed = []
   appendF : Stmt.append ∈ s.todo → Chain s.rd.ents ∧
-    ∀ e ∈ s.rd.ents.head?, s.node.off < e.index ∧ s.node.applied < e.index ∧ e.index ≤ s.node.last + 1
+    ∀ e ∈ s.rd.ents.head?, s.node.off < e.index ∧ e.index ≤ s.node.last + 1
   sendF : Stmt.send ∈ s.todo → ∀ m ∈ s.rd.msgs, MsgOk c.self s.node.hs (lastP s) m
   pubF : Stmt.publish ∈ s.todo → ∀ e ∈ s.rd.committed, e ∈ (L s).ents ∧ e.index ≤ s.node.hs.commit
 
@@ -157,7 +156,7 @@ structure Inv (c : Cfg) (s : State) : Prop where
     (s.rd.snap.isEmpty = false → (Stmt.snapFile ∉ s.todo → s.rd.snap ∈ s.disk.files) ∧
       (Stmt.snapWalWrite ∉ s.todo → (s.rd.snap.index, s.rd.snap.term) ∈ snapRecs s.disk.all))
   post : Stmt.walWrite ∉ s.todo → s.todo ≠ [] → Post c s
-  trigF : ∀ sn, s.node.trig = some sn → Stmt.trigCompact ∈ s.todo ∧ Stmt.trigFile ∉ s.todo ∧ sn.index = s.node.applied ∧
+  trigF : ∀ sn, s.node.trig = some sn → Stmt.trigCompact ∈ s.todo ∧ Stmt.trigFile ∉ s.todo ∧ sn.index = s.node.applied ∧ 0 < sn.index ∧
     sn ∈ s.disk.files ∧ (Stmt.trigWalWrite ∉ s.todo → (sn.index, sn.term) ∈ snapRecs s.disk.all)
 
 end ReadyLoop
